@@ -20,6 +20,7 @@ static slot_t *slots; static int nslots; static int outstanding; static double t
 static unsigned long total;
 static int child_fd = -1;
 static char *cbuf; static size_t clen, ccap; static int nviol;
+static char *seen_cls[128]; static int n_seen_cls;
 
 static int read_full(int fd, void *buf, size_t n) {
 	size_t o = 0;
@@ -45,7 +46,7 @@ static void zygote_loop(int in, int out) {
 		if (pid < 0) _exit(3);
 		if (pid == 0) {
 			close(p[0]); close(in); close(out);
-			child_fd = p[1]; clen = 0; nviol = 0;
+			child_fd = p[1]; clen = 0; nviol = 0; n_seen_cls = 0;
 			if (!getenv("VERIF_DEBUG")) { int dn = open("/dev/null", O_WRONLY); if (dn >= 0) { dup2(dn, 2); close(dn); } }
 			fn(job, n);
 			res_finish();
@@ -139,6 +140,9 @@ void res_printf(const char *fmt, ...) {
 }
 int res_nviol(void) { return nviol; }
 void res_violation(const char *cls, const char *fmt, ...) {
+	/* one witness per class and child: repeated occurrences are only counted */
+	for (int i = 0; i < n_seen_cls; i++) if (!strcmp(seen_cls[i], cls)) { nviol++; res_printf("C violations_repeated_in_child 1\n"); return; }
+	if (n_seen_cls < 128) seen_cls[n_seen_cls++] = strdup(cls);
 	char tmp[4096]; va_list ap; va_start(ap, fmt); vsnprintf(tmp, sizeof tmp, fmt, ap); va_end(ap);
 	for (char *p = tmp; *p; p++) if (*p == '\n' || *p == '\t') *p = ' ';
 	nviol++;
